@@ -18,7 +18,7 @@ kinds — try_lock appears only in ActiveRecurse for Mutex and is applied to the
 table (One under FIRST, Two otherwise), the sampled player's and chance tables use blocking lock();
 (5) cache discipline of recurse_regret / the task closures, and E9 parallel effects (every shared
 write is `x = x ± e` under the lock, fetch_add/fetch_sub, or the set-once of `cached`); (6) zero
-unsafe. Not decided: the unique-visit theorem behind try_lock().unwrap() (its structural premises
+unsafe; the payoff cache filled by the tasks is not emptied between the fill and the root traversal that reads it. Not decided: the unique-visit theorem behind try_lock().unwrap() (its structural premises
 are the recall witness of C11 and the rules above) and equality of results as numbers.
 """
 ASSUMPTIONS = ['rayon runs every task exactly once; std::sync::Mutex provides mutual exclusion',
@@ -39,4 +39,5 @@ def run(ctx):
     parallel.child_reach_fresh(ctx, 'C07', ['solve::vanilla::thread_threshold'])
     parallel.frontier_reach_form(ctx, 'C07')
     parallel.frontier_search_pure(ctx, 'C07', ['external', 'vanilla'])
+    parallel.cache_live_at_root(ctx, 'C07', ['external', 'vanilla'])
     parallel.no_unsafe(ctx, 'C07')
